@@ -235,7 +235,9 @@ func (reqDom) Gen(r *gen.R, tier string, emit func(string)) {
 		// the ownership lists the service is started with: everything, or overlapping lists in
 		// either order (a subject under several owned patterns is still subscribed once, C09)
 		opName := "req"
-		if r.Chance(1, 4) && (rname == "svc" || strings.HasPrefix(rname, "svc.")) && !strings.Contains(rname, "..") && !strings.HasSuffix(rname, ".") {
+		if r.Chance(1, 25) {
+			opName = "reqn" // the message carries no reply subject
+		} else if r.Chance(1, 4) && (rname == "svc" || strings.HasPrefix(rname, "svc.")) && !strings.Contains(rname, "..") && !strings.HasSuffix(rname, ".") {
 			opName = r.Pick([]string{"req1", "req2", "req3"})
 		}
 		args := []string{opName, subj, pk, r.Pick([]string{"cid1", "c.x", "", "cid1", "c d", "cid2"}), wire.Bool(r.Bool()), params, token,
@@ -626,7 +628,11 @@ func (reqDom) Exec(a []string) string {
 				payload = append([]byte(" \n\t"), payload...)
 			}
 		}
-		if run.C.Deliver(subj, reply, payload) == 0 {
+		replyTo := reply
+		if a[0] == "reqn" {
+			replyTo = ""
+		}
+		if run.C.Deliver(subj, replyTo, payload) == 0 {
 			return "not-delivered"
 		}
 		// the listener goroutine handles messages in order: once the ping is answered the
